@@ -193,3 +193,60 @@ Qed.
     stays in range since fix: commit 003095f; the recursion never runs out of fuel) *)
 Theorem tree_never_panics ops o : snd (t_step all_fix (t_run_fx all_fix ops) o) <> Some EPanic.
 Proof. destruct (tree_refines_index ops) as (_ & _ & H). rewrite H. apply m_step_no_panic. Qed.
+
+(** ** key names and captures.  C06/Tree.v's [find_node] does not collect captures (the
+    conditions of the C06 streams do not read them).  Radix/Tree.v's [find_node] is findNode
+    with the wildcard key names of the node found and the captured path values, handed to
+    conditions that may read them (path_params conditions).  On the embedded tree it gives,
+    after a history, the same answer - rule, key names AND captures - as on a freshly loaded
+    tree: the two trees hold the same entries, key names included. *)
+
+Lemma trel_same_entries (t1 t2 : rtree) (d : db) : TR.trel t1 d -> TR.trel t2 d ->
+  Radix.TreeAddProofs.same_entries route (Radix.Tree.abs t1) (Radix.Tree.abs t2).
+Proof.
+  intros [_ [_ H1]] [_ [_ H2]] p. specialize (H1 p). specialize (H2 p).
+  destruct (Radix.Load.assoc p (Radix.Tree.abs t1)) as [N1|], (Radix.Load.assoc p (Radix.Tree.abs t2)) as [N2|].
+  - destruct H1 as [G1 [Hne1 F1]], H2 as [G2 [_ F2]]. rewrite G1 in G2. inversion G2 as [[Hv Hfl]].
+    destruct N1 as [v1 f1 k1], N2 as [v2 f2 k2]. cbn in *. subst v2 f2.
+    destruct v1 as [|x0 r]; [congruence|]. inversion F1 as [|? ? P1 _]; inversion F2 as [|? ? P2 _]; subst.
+    rewrite P1 in P2. inversion P2. reflexivity.
+  - destruct H1 as [G1 _]. congruence.
+  - destruct H2 as [G2 _]. congruence.
+  - reflexivity.
+Qed.
+
+Theorem t_rel_find_full (t1 t2 : tree) (d : db) (m : Radix.Spec.matcher route) path : t_rel t1 d -> t_rel t2 d ->
+  Radix.Tree.tree_find true true true m (emb t1) path = Radix.Tree.tree_find true true true m (emb t2) path.
+Proof.
+  intros [_ H1] [_ H2]. pose proof H1 as [W1 _]. pose proof H2 as [W2 _].
+  apply C06.TreeDelFacts.wfd_leaf_or in W1. apply C06.TreeDelFacts.wfd_leaf_or in W2.
+  rewrite (Radix.TreeProofs.tree_find_refines route m true _ path W1), (Radix.TreeProofs.tree_find_refines route m true _ path W2).
+  apply Radix.LoadProofs.find_in_perm; [|apply Radix.TreeProofs.abs_NoDup; exact W1].
+  apply Radix.LoadProofs.same_assoc_perm; [apply Radix.TreeProofs.abs_NoDup; exact W1 | apply Radix.TreeProofs.abs_NoDup; exact W2 |].
+  exact (trel_same_entries _ _ d H1 H2).
+Qed.
+
+Theorem tree_captures_equal_fresh ops :
+  wf_history ops = true -> guard_dupid ops = false -> dirty ops = [] ->
+  forall path (conditions : Radix.Spec.matcher route),
+    Radix.Tree.tree_find true true true conditions (emb (index (t_run_fx all_fix ops))) path =
+    Radix.Tree.tree_find true true true conditions (emb (index (t_run_fx all_fix (fresh_ops (current ops))))) path.
+Proof.
+  intros W G D path m.
+  destruct (t_run_sim ops) as (_ & R1 & _). destruct (t_run_sim (fresh_ops (current ops))) as (_ & R2 & _).
+  rewrite (now_history_equals_fresh ops W G D) in R1. exact (t_rel_find_full _ _ _ m path R1 R2).
+Qed.
+
+(** the lookup of C06/Tree.v is the rule part of that answer *)
+Theorem t_find_rule_is_radix_find (t : tree) path (m : route -> bool) :
+  flags_ok t = true -> Radix.Tree.wfb (emb t) = true ->
+  t_find_rule false t path m =
+  match Radix.Tree.tree_find true true true (fun v _ _ => m v) (emb t) path with
+  | Radix.Spec.Found v _ _ => Some (rt_rule v)
+  | Radix.Spec.NoMatch => None
+  end.
+Proof.
+  intros _ Hw. pose proof (find_bridge m (S (length path)) t path [] Hw ltac:(lia)) as HF.
+  unfold t_find_rule, Radix.Tree.tree_find. unfold find_rel in HF.
+  destruct (Radix.Tree.find_node true true true (fun v _ _ => m v) (emb t) path []) as [v ks cs|cs b]; rewrite HF; reflexivity.
+Qed.
